@@ -32,6 +32,14 @@ class BlindEditor(actors.Party):
         if x < 0.3:
             return {"op": "replace", "b": self.b, "k": r.randrange(0, 1000), "ev": self.ev()}
         if x < 0.45:
+            if r.random() < 0.25:
+                # a watcher that goes quiet and then repeats its last heartbeat
+                self.last_rl = self.ev()
+                return [
+                    {"op": "replace_last_blind", "b": self.b, "ev": copy.deepcopy(self.last_rl)},
+                    {"op": "tick", "us": r.choice([2_000_000, 11_500_000, 20_000_000, 3600_000_000])},
+                    {"op": "replace_last_blind", "b": self.b, "ev": copy.deepcopy(self.last_rl), "repeat": True},
+                ]
             if self.last_rl is not None and r.random() < 0.3:
                 # the very same heartbeat again (a watcher repeating itself): a write like any other
                 return {"op": "replace_last_blind", "b": self.b, "ev": copy.deepcopy(self.last_rl), "repeat": True}
